@@ -11,10 +11,15 @@ EXPLANATION = (
     "float — the position scan is only reachable when the view's position compared equal to Middle and the mode is Normal; (R3) fuzz "
     "never trims a changed line — HunkView::new derives prefix_fuzz/suffix_fuzz by saturating_sub from the hunk's own "
     "prefix_context/suffix_context (so each is bounded by it) and remove_content/add_content slice only [prefix_fuzz .. len - suffix_fuzz]. "
-    "Not decided: nearest-match / forward-wins tie-breaking among repeated lines, completeness of the scan, interplay with the "
-    "previous offset — statements about which index a search over file contents returns."
+    "(R4) the position scan — the loop tests exactly the drawn candidate against the same needle/haystack as the direct probe, the first "
+    "hit is recorded and ends the loop, exhaustion is the only other exit; the candidate sequence, read off the MIR as an iterator term "
+    "(Range / RangeInclusive / rev / interleave / chain over expected line, file length, hunk length and constants <= 2), is decided in a "
+    "finite-order model (engine H): every position of [0, len - hunk_len] other than the expected line occurs, in strictly increasing "
+    "(distance, backward-after-forward) order; and the first guesses are, as integer terms, stated line (Start), stated line + previous "
+    "offset (Middle), len - hunk_len (End). matches() answers true only by comparing haystack[at .. at + needle.len()] with the needle and "
+    "answers false without comparing only under a condition that excludes every admissible position. Not decided: interplay of fuzz with repeated content beyond the order of levels."
 )
-LEVEL_NOTE = "Undecided: which position a search over file contents selects; 'failed => no admissible position'."
+LEVEL_NOTE = "Undecided: slice equality itself (core); arithmetic overflow of stated line + offset (C11)."
 
 
 def level_loop(ck, am, rule):
@@ -100,10 +105,24 @@ def r2(ck, rule="C02-R2"):
     scans = [(bb, t) for bb, t in mcalls if cfg.innermost_loop_of(tah, bb)]
     ck.floor(rule, "position scans in try_apply_hunk", len(scans), 1)
 
+    def position_param_ok(a):
+        """`a` is a parameter of try_apply_hunk that, at every call site, is position() of the very view passed as hunk_view."""
+        if not (isinstance(a, tuple) and a[0] == "param"):
+            return False
+        sites = [s_ for s_ in ck.cg.sites_to(tah.id) if s_.term is not None and s_.kind == "call"]
+        if not sites:
+            return False
+        for s_ in sites:
+            pe = df.operand_expr(s_.caller, s_.term["args"][a[1] - 1])
+            ve = df.operand_expr(s_.caller, s_.term["args"][0])
+            if not (df.is_call(pe, "::position") and pe[2][0] == ve):
+                return False
+        return True
+
     def is_pos_cmp(e):
         if not (isinstance(e, tuple) and e[0] == "call" and (e[1].endswith("::eq") or e[1].endswith("::ne"))):
             return False
-        has_pos = any(df.is_call(a, "::position") for a in e[2])
+        has_pos = any(df.is_call(a, "::position") or position_param_ok(a) for a in e[2])
         has_mid = False
         for a in e[2]:
             pv = guards.promoted_value(tah, a)
@@ -197,7 +216,195 @@ def r3(ck, rule="C02-R3"):
                    ok_detail=df.show(r, 160))
 
 
+def r4(ck, rule="C02-R4"):
+    """The candidate sequence of the position scan: complete over the admissible positions and ordered nearest-first, forward
+    winning ties — decided on the iterator *term* with engine H (finite-order model), plus the loop discipline around it."""
+    from .. import seqmodel
+    tah = ck.anchor("libpatch::patch::try_apply_hunk")
+    if tah is None:
+        return
+    mcalls = [(bb, t) for bb, t, c in calls_named(tah, "libpatch::patch::try_apply_hunk::matches")]
+    probes = [(bb, t) for bb, t in mcalls if not cfg.innermost_loop_of(tah, bb)]
+    loops = [il for il in pt.iterator_loops(tah) if any(bb in il["body"] for bb, t in mcalls)]
+    if not ck.require(len(probes) == 1 and len(loops) == 1, rule, "one direct probe and one scan loop in try_apply_hunk",
+                      "%d direct matches() probes, %d loops that call matches()" % (len(probes), len(loops)), tah.where()):
+        return
+    (pbb, probe), il = probes[0], loops[0]
+    scan = [(bb, t) for bb, t in mcalls if bb in il["body"]]
+    if not ck.require(len(scan) == 1, rule, "one matches() call in the scan loop", "%d calls" % len(scan), tah.where()):
+        return
+    sbb, st_ = scan[0]
+    needle, hay, T = (df.operand_expr(tah, a) for a in probe["args"])
+    sn, sh, item = (df.operand_expr(tah, a) for a in st_["args"])
+    ck.require(sn == needle and sh == hay, rule, "the scan compares the same lines against the same file as the direct probe",
+               "scan: matches(%s, %s, _)  probe: matches(%s, %s, _)" % (df.show(sn, 60), df.show(sh, 60), df.show(needle, 60), df.show(hay, 60)), tah.where(st_))
+    is_item = isinstance(item, tuple) and item[0] == "field" and item[2] == 0 and isinstance(item[1], tuple) and item[1][0] == "downcast" and \
+        item[1][2] == "Some" and df.is_call(item[1][1], "Iterator>::next")
+    ck.require(is_item, rule, "each drawn candidate is the position tested", "matches() in the loop is given %s, not the drawn candidate" % df.show(item, 100),
+               tah.where(st_))
+    # ---- loop discipline: first match wins, exhaustion is the only other way out ------------------------------------------
+    be = guards.bool_edges(tah, sbb) if tah.blocks[sbb]["term"]["k"] == "switch" else None
+    nxt = tah.blocks[sbb]["term"].get("target")
+    sw_bb = nxt if nxt is not None else None
+    be = guards.bool_edges(tah, sw_bb) if sw_bb is not None else None
+    cond = guards.switch_cond(tah, sw_bb) if sw_bb is not None else None
+    okc = bool(be and cond and df.is_call(cond[0], "try_apply_hunk::matches"))
+    if ck.require(okc, rule, "the scan branches on the result of matches()", "no boolean branch on matches() right after the call", tah.where(st_)):
+        f_edge, t_edge = be
+        if cond[1]:
+            f_edge, t_edge = t_edge, f_edge
+        treg = cfg.dominated_by_edge(tah, (sw_bb, t_edge))
+        ck.require(il["head"] not in cfg.reachable(tah, [t_edge]) or not (cfg.reachable(tah, [t_edge]) & {il["head"]}), rule,
+                   "the first matching candidate ends the scan", "after a match the loop draws further candidates (a later, farther match could win)",
+                   tah.where(st_))
+        # the hit is recorded as the drawn candidate
+        d = df.defs_of(tah)
+        rec_ok = False
+        for bb2, idx2, s2 in tah.stmts():
+            if bb2 in treg and s2["k"] == "assign" and "p" not in s2["lhs"] and tah.names.get(s2["lhs"]["l"]):
+                e2 = df.rvalue_expr(tah, s2["rv"])
+                if isinstance(e2, tuple) and e2[0] == "agg" and e2[2] == "Some" and e2[3] and e2[3][0] == item:
+                    rec_ok = True
+        ck.require(rec_ok, rule, "a hit records the candidate that matched", "no `Some(candidate)` recorded on the matching branch", tah.where(st_))
+        exits = set(il["exit_edges"])
+        other = [e for e in exits if e != il["none_edge"] and e[0] not in treg and e[0] != sw_bb]
+        ck.require(not other, rule, "the scan ends only on a match or on exhaustion", "the loop can also be left through %s" % other, tah.where(st_))
+        ck.require(il["head"] in cfg.reachable(tah, [f_edge]), rule, "a non-matching candidate continues the scan",
+                   "after a failed comparison the loop is not continued", tah.where(st_))
+    # ---- T is stable between the probe and the scan --------------------------------------------------------------------------
+    if isinstance(T, tuple) and T[0] == "local":
+        between = cfg.reachable(tah, [pbb]) & {b for b in range(len(tah.blocks)) if il["head"] in cfg.reachable(tah, [b])}
+        redefs = [dd for dd in df.defs_of(tah).all(T[1]) if dd[1] in between and dd[1] != pbb]
+        ck.require(not redefs, rule, "the expected line is not changed between the direct probe and the scan",
+                   "the expected line is reassigned between the probe and the scan", tah.where())
+    # ---- the iterator term ----------------------------------------------------------------------------------------------------
+    it = df.operand_expr(tah, il["next_term"]["args"][0])
+    if isinstance(it, tuple) and it[0] == "local":
+        full = [dd for dd in df.defs_of(tah).all(it[1]) if dd[0] in ("stmt", "call")]
+        if len(full) == 1:
+            it = df.rvalue_expr(tah, full[0][3]["rv"]) if full[0][0] == "stmt" else df.call_expr(tah, full[0][2])
+
+    def is_len_of(x, what):
+        x = seqmodel.strip(x)
+        return df.is_call(x, "::len") and len(x[2]) == 1 and seqmodel.strip(x[2][0]) == seqmodel.strip(what)
+    m = seqmodel.Model([("T", lambda x: x == T), ("n", lambda x: is_len_of(x, hay)), ("r", lambda x: is_len_of(x, needle))])
+    bad = None
+    nval = 0
+    try:
+        for env in seqmodel.valuations(["T"], ["n", "r"], 6):
+            seq = m.seq(it, env)
+            nval += 1
+            n, r, t = env["n"], env["r"], env["T"]
+            adm = range(0, n - r + 1)
+            have = set(seq)
+            miss = [p for p in adm if p != t and p not in have]
+            if miss:
+                bad = ("coverage", "with %d lines in the file, %d lines to match and expected line %d the admissible position %d is never probed "
+                       "(probed: %s)" % (n, r, t, miss[0], [t] + seq))
+                break
+            keys = [(abs(p - t), 0 if p > t else 1) for p in seq if p in adm and p != t]
+            if any(k2 <= k1 for k1, k2 in zip(keys, keys[1:])):
+                bad = ("order", "with %d lines in the file, %d lines to match and expected line %d the candidates are probed in the order %s: "
+                       "not nearest-first with forward winning ties" % (n, r, t, [p for p in seq if p in adm]))
+                break
+    except seqmodel.Unsupported as ex:
+        ck.violate(rule, "scan sequence is a recognised iterator term", "cannot model the candidate sequence (%s): anchor lost, the rule would be vacuous" % ex,
+                   tah.where(il["next_term"]))
+        return
+    if not ck.require({"T", "n", "r"} <= m.used or {"T"} <= m.used, rule, "the candidate sequence depends on the expected line",
+                      "the iterator term mentions none of expected line / file length / hunk length", tah.where(il["next_term"])):
+        return
+    if m.max_const > 2:
+        ck.violate(rule, "constants in the candidate sequence are within the model's window", "constant %d exceeds the small-model window" % m.max_const,
+                   tah.where(il["next_term"]))
+        return
+    inst = "candidates cover every admissible position, nearest first, forward before backward"
+    if bad:
+        ck.violate(rule, inst, "%s: %s" % bad, tah.where(il["next_term"]))
+    else:
+        ck.ok(rule, inst, "iterator term %s decided over %d valuations of (expected line, file length, hunk length): every position in "
+              "[0, len - hunk_len] other than the expected line occurs, in strictly increasing (distance, backward) order" % (df.show(it, 200), nval),
+              tah.where(il["next_term"]))
+    # ---- matches(): true only by comparing haystack[at .. at + len(needle)] with needle, false without comparing only when inadmissible ----
+    mfn = ck.anchor("libpatch::patch::try_apply_hunk::matches")
+    if mfn is not None:
+        def is_len_param(x, idx):
+            x = seqmodel.strip(x)
+            return df.is_call(x, "::len") and len(x[2]) == 1 and seqmodel.strip(x[2][0])[:2] == ("param", idx)
+        mm = seqmodel.Model([("A", lambda x: isinstance(x, tuple) and x[:2] == ("param", 3)), ("r", lambda x: is_len_param(x, 1)),
+                             ("n", lambda x: is_len_param(x, 2))])
+        gl = guards.find_bool_guards(mfn, lambda e: True)
+        ncmp = nfalse = 0
+        for dd in df.defs_of(mfn).all(0):
+            e = df.rvalue_expr(mfn, dd[3]["rv"]) if dd[0] == "stmt" else df.call_expr(mfn, dd[2])
+            where = mfn.where(dd[3]) if dd[0] == "stmt" else mfn.where(dd[2])
+            if e == ("const", 0, "bool"):
+                nfalse += 1
+                doms = [(g, tv) for g in gl for tv, edge in ((True, g["true_edge"]), (False, g["false_edge"])) if dd[1] in cfg.dominated_by_edge(mfn, edge)]
+                good = False
+                try:
+                    for g, tv in doms:
+                        if all(mm.boolval(g["expr"], env) != tv for env in seqmodel.valuations(["A"], ["n", "r"], 4) if 0 <= env["A"] <= env["n"] - env["r"]):
+                            good = True
+                except seqmodel.Unsupported as ex:
+                    good = False
+                ck.require(good, rule, "matches() answers false without comparing only for inadmissible positions",
+                           "a `false` return of matches() is not guarded by a condition that excludes every position in [0, len - needle_len]", where)
+            elif df.is_call(e, "::eq") and len(e[2]) == 2:
+                ncmp += 1
+                a, b = e[2]
+                good = False
+                if df.is_call(a, "Index<I> for [T]>::index") and seqmodel.strip(b)[:2] == ("param", 1) and seqmodel.strip(a[2][0])[:2] == ("param", 2):
+                    rg = a[2][1]
+                    try:
+                        good = isinstance(rg, tuple) and rg[0] == "agg" and rg[1].endswith("ops::range::Range") and \
+                            all(mm.val(rg[3][0], env) == env["A"] and mm.val(rg[3][1], env) == env["A"] + env["r"]
+                                for env in seqmodel.valuations(["A"], ["n", "r"], 3) if env["A"] >= 0)
+                    except seqmodel.Unsupported:
+                        good = False
+                ck.require(good, rule, "matches() compares haystack[at .. at + needle.len()] with the needle",
+                           "matches() returns %s" % df.show(e, 160), where, ok_detail=df.show(e, 160))
+            else:
+                ck.violate(rule, "matches() result is a comparison or a guarded false", "matches() can return %s" % df.show(e, 120), where)
+        ck.floor(rule, "comparison returns in matches()", ncmp, 1)
+
+    # ---- first guesses as integer terms -----------------------------------------------------------------------------------------
+    psw = pt.discr_switches(tah, lambda e, rv: (rv.get("adt") or "").endswith("HunkPosition"))
+    if isinstance(T, tuple) and T[0] == "local" and psw:
+        want = {"Start": lambda v: v["S"], "Middle": lambda v: v["S"] + v["O"], "End": lambda v: v["n"] - v["r"]}
+        view = df.operand_expr(tah, {"k": "copy", "pl": {"l": 1}})
+        m2 = seqmodel.Model([("S", lambda x: df.is_call(x, "::remove_target_line")),
+                             ("O", lambda x: isinstance(x, tuple) and x[0] == "param" and x[2] == "last_hunk_offset"),
+                             ("n", lambda x: is_len_of(x, hay)), ("r", lambda x: is_len_of(x, needle))])
+        for sw in psw:
+            for var, edge in sw["edges"].items():
+                if var not in want:
+                    continue
+                reg = cfg.dominated_by_edge(tah, edge)
+                ds = [dd for dd in df.defs_of(tah).all(T[1]) if dd[1] in reg and dd[0] in ("stmt", "call")]
+                if not ck.require(len(ds) == 1, rule, "one first guess for %s hunks" % var, "%d assignments of the expected line on the %s arm" % (len(ds), var),
+                                  tah.where()):
+                    continue
+                dd = ds[0]
+                e = df.rvalue_expr(tah, dd[3]["rv"]) if dd[0] == "stmt" else df.call_expr(tah, dd[2])
+                wrong = None
+                try:
+                    for env in seqmodel.valuations(["S", "O"], ["n", "r"], 3):
+                        if m2.val(e, env) != want[var](env):
+                            wrong = env
+                            break
+                except seqmodel.Unsupported as ex:
+                    ck.violate(rule, "first guess for %s hunks is a recognised term" % var, "cannot model %s (%s)" % (df.show(e, 100), ex),
+                               tah.where(dd[3]) if dd[0] == "stmt" else tah.where())
+                    continue
+                desc = {"Start": "the stated line", "Middle": "stated line + previous offset", "End": "file length - hunk length"}[var]
+                ck.require(wrong is None, rule, "first guess for %s hunks = %s" % (var, desc),
+                           "the expected line of a %s hunk is %s, which differs from %s e.g. for %s" % (var, df.show(e, 120), desc, wrong),
+                           tah.where(dd[3]) if dd[0] == "stmt" else tah.where(), ok_detail=df.show(e, 120))
+
+
 def run(ck):
     r1(ck)
     r2(ck)
     r3(ck)
+    r4(ck)
